@@ -40,6 +40,9 @@ RULE = ("histories of 1-3 runs on one Spinner over one virtual reactor; each run
         "same reactor) x delayed calls that try a re-entrant run when they run (any instant, incl. the instant the "
         "run ends, before and after the ending event) x handler installed by the function x "
         "pre-installed handler per signal (SIG_DFL, SIG_IGN, default_int_handler, callables, getsignal()=None) x "
+        "start-up hooks registered with reactor.callWhenRunning before the call (0-3: call reactor.stop() directly "
+        "while the reactor starts up / schedule a delayed call / do nothing; they fire in registration order before "
+        "the function is called) x "
         "reactor.stop before the call (stock / instance-level override installed before the first run or between "
         "runs / override removed) x clear_junk or not x tie-break oracle x reactor running one call or one instant "
         "per iteration; "
@@ -55,6 +58,10 @@ ASSUMPTIONS = ["the reactor runs either one delayed call per iteration (crash() 
                "the real reactor, every call due at the same instant in one iteration; simultaneous calls are "
                "ordered by an explicit oracle; the theorems quantify over both modes and all oracles",
                "the function's leftovers do nothing when they run; Deferreds fire only from reactor callbacks",
+               "every 'after startup' trigger fires, in registration order, even when one of them stops the reactor, and "
+               "the main loop then does not run (as the real reactor does: checked by the real-reactor sample, which "
+               "records the firing order); a refused run (stale junk) never starts the reactor, the harness then takes "
+               "its start-up hooks back",
                "Spinner._OBLIGATORY_REACTOR_ITERATIONS = 0 and _PRESERVED_SIGNALS covers SIGINT/SIGTERM/SIGCHLD: "
                "read from the live code into coq/Gen/Spinnertabs.v and re-proved on every run "
                "(C15_table_iterations, C15_table_preserved)",
@@ -190,6 +197,18 @@ def drive(case):
                 else:
                     reactor.stop = overrides[run["rstop"]]
             ran = []
+            # start-up hooks registered by somebody else before run() is entered
+            for j, h in enumerate(run.get("hooks") or []):
+                if h[0] == "stop":
+                    reactor.callWhenRunning(lambda: reactor.stop())
+                elif h[0] == "sched":
+                    def hook(j=j, d=h[1], ran=ran):
+                        c = reactor.callLater(d, ran.append, 200 + j)
+                        toks[id(c)] = 200 + j
+                        keep.append(c)
+                    reactor.callWhenRunning(hook)
+                else:
+                    reactor.callWhenRunning(lambda: None)
             reentry = []           # one entry per re-entrant attempt, in order: refused and nothing changed
             order_from = len(reactor.order)
 
@@ -283,6 +302,7 @@ def drive(case):
                  "stop": stop_id(), "stopped": bool(reactor.really_stopped),
                  "sigs": [_handler_id(sigmod.getsignal(s), reactor) for s in sigs]}
             out.append(o)
+            del reactor._hooks[:]      # a refused run never started the reactor: take the hooks back
         return out
     finally:
         _spinner.signal, vreactor_mod.signal = patched
@@ -311,8 +331,12 @@ def t_run(r):
         q.nat(r["sels"]),
         q.option(r["stop"], q.nat), q.boolean(r["stop_now"]), q.lst([q.boolean(o) for o in r["reenter"]]),
         q.option(r["setsig"], lambda p: q.pair("(nth %d reactor_signals 0)" % p[0], q.nat(p[1]))))
-    return "(mkRun %s %s %s %s %s)" % (q.boolean(r["clear"]),
-                                         q.lst([q.nat(h) for h in r["pre"]]), q.option(r.get("rstop"), q.nat),
+    def t_hook(h):
+        return "HStop" if h[0] == "stop" else "(HSched %s)" % q.nat(h[1]) if h[0] == "sched" else "HNoop"
+    return "(mkRun %s %s %s %s %s %s)" % (q.boolean(r["clear"]),
+                                         q.lst([q.nat(h) for h in r["pre"]]),
+                                         q.lst([t_hook(h) for h in r.get("hooks") or []]),
+                                         q.option(r.get("rstop"), q.nat),
                                          q.nat(r["timeout"]), fn)
 
 
@@ -356,7 +380,7 @@ NONE_HANDLERS = True
 
 
 def mkrun(shape, extras=(), sels=0, stop=None, stop_now=False, reenter=False, setsig=None, pre=(0, 0, 0),
-          clear=True, timeout=T, other=False, rstop=None):
+          clear=True, timeout=T, other=False, rstop=None, hooks=()):
     # reenter: False / True (one attempt, through another Spinner if other) / a list of attempts (True = other Spinner);
     # extras: delays, or (delay, x) with x None (does nothing) / False / True (tries a re-entrant run when it runs)
     if reenter is True:
@@ -367,7 +391,7 @@ def mkrun(shape, extras=(), sels=0, stop=None, stop_now=False, reenter=False, se
     return {"clear": clear, "pre": list(pre), "timeout": timeout, "shape": list(shape),
             "extras": [e[0] for e in ex], "xre": [e[1] for e in ex],
             "sels": sels, "stop": stop, "stop_now": stop_now, "reenter": [bool(o) for o in reenter], "setsig": setsig,
-            "rstop": rstop}
+            "rstop": rstop, "hooks": [list(h) for h in hooks]}
 
 
 def shapes():
@@ -394,14 +418,22 @@ def rand_run(rng, simple=False):
     pre = [rng.choice(PRE_VALUES) for _ in range(3)] if rng.random() < 0.6 else [0, 0, 0]
     # who reactor.stop is before the call: mostly left as the previous run left it, else (re)installed / removed
     rstop = rng.choice([None, None, None, 0, 1, 2, 3])
+    # start-up hooks registered before the call: mostly none; stop requests issued while the reactor starts, hooks that
+    # only schedule something, hooks that do nothing, in any order
+    hooks = []
+    if rng.random() < 0.25:
+        for _ in range(rng.choice([1, 1, 2, 3])):
+            k = rng.choice(["stop", "sched", "sched", "noop"])
+            hooks.append(["sched", rng.choice(times)] if k == "sched" else [k])
     if simple:
-        return mkrun(sh, extras, rng.choice([0, 0, 1]), stop, False, False, None, pre, True, timeout, rstop=rstop)
+        return mkrun(sh, extras, rng.choice([0, 0, 1]), stop, False, False, None, pre, True, timeout, rstop=rstop,
+                     hooks=hooks)
     # re-entrant attempts made by the function itself: none, one, or several (each through the same / another Spinner)
     n_re = rng.choice([0, 0, 0, 0, 0, 0, 1, 1, 2, 3])
     return mkrun(sh, extras, rng.choice([0, 0, 0, 1, 2]), stop, rng.random() < 0.1,
                  [rng.random() < 0.5 for _ in range(n_re)],
                  [rng.randrange(3), 8] if rng.random() < 0.15 else None, pre,
-                 rng.random() < 0.75, timeout, rstop=rstop)
+                 rng.random() < 0.75, timeout, rstop=rstop, hooks=hooks)
 
 
 def generate(rng, tier):
@@ -454,6 +486,19 @@ def generate(rng, tier):
             pre[k] = h
             fixed.append([mkrun(ok, pre=pre), mkrun(never, pre=pre, stop=1)])
             fixed.append([mkrun(err, pre=pre, rstop=1)])
+    # interrupt point "while the reactor starts up, before the function has been called": start-up hooks registered
+    # before run() that call reactor.stop() directly, only schedule something, or do nothing - x every function shape
+    for sh in shapes():
+        fixed.append([mkrun(sh, hooks=[["stop"]])])
+        fixed.append([mkrun(sh, hooks=[["noop"], ["sched", 1], ["stop"], ["sched", T + 2]], extras=[1], sels=1),
+                      mkrun(ok, clear=False), mkrun(ok)])
+        fixed.append([mkrun(sh, hooks=[["sched", 0], ["sched", T], ["noop"]], stop=T)])
+    fixed += [
+        [mkrun(ok, hooks=[["stop"]]), mkrun(never, hooks=[["stop"], ["stop"]], pre=(3, 1, 4), rstop=1), mkrun(ok)],
+        [mkrun(never, extras=[9]), mkrun(ok, clear=False, hooks=[["stop"], ["sched", 1]]), mkrun(["later", 2, "ok", 5])],
+        [mkrun(["later", 0, "ok", 5], hooks=[["stop"]], reenter=[False, True], extras=[(0, True)])],
+        [mkrun(["later", 2, "err", 1], hooks=[["sched", 2], ["sched", 2]], stop_now=True)],
+    ]
     # re-entrant use is refused EVERY time: several attempts inside one run (the caller swallows the refusal and tries
     # again / two independent helpers), through the same and through another Spinner, synchronously and from delayed
     # calls at any instant of the run (before, at and - same reactor iteration - after the event that ends it)
@@ -564,6 +609,9 @@ def shrink(case):
             yield rep(pre=[0, 0, 0])
         if r.get("rstop") is not None:
             yield rep(rstop=None)
+        hk = r.get("hooks") or []
+        for j in range(len(hk)):
+            yield rep(hooks=hk[:j] + hk[j + 1:])
         if not r["clear"]:
             yield rep(clear=True)
         if r["shape"][0] == "later":
@@ -601,6 +649,9 @@ def distribution(cases):
             d["stale_junk_not_cleared"] += not r["clear"]
             d["nondefault_handlers"] += r["pre"] != [0, 0, 0]
             d["stop_override_installed"] += bool(r.get("rstop"))
+            hk = r.get("hooks") or []
+            d["runs_with_startup_hooks"] = d.get("runs_with_startup_hooks", 0) + bool(hk)
+            d["runs_stopped_during_startup"] = d.get("runs_stopped_during_startup", 0) + any(h[0] == "stop" for h in hk)
             d["stop_override_removed"] += r.get("rstop") == 0
             for n, h in zip(SIGNAMES, r["pre"]):
                 d["pre_handler_by_signal"][n][str(h)] = d["pre_handler_by_signal"][n].get(str(h), 0) + 1
@@ -631,7 +682,17 @@ for c in cases:
     stop_before = reactor.stop
     before = [signal.getsignal(s) for s in sigs]
     keep = []
+    fired = []
+    # start-up hooks registered before run(): the real reactor fires all of them, in this order, before the function
+    for j, h in enumerate(c.get("hooks") or []):
+        if h == "stop":
+            reactor.callWhenRunning(lambda j=j: (fired.append(j), reactor.stop()))
+        elif h == "sched":
+            reactor.callWhenRunning(lambda j=j: (fired.append(j), keep.append(reactor.callLater(30, lambda: None))))
+        else:
+            reactor.callWhenRunning(lambda j=j: fired.append(j))
     def function(c=c):
+        fired.append("f")
         for i in range(c["extras"]):
             keep.append(reactor.callLater(30, lambda: None))
         if c["kill"]:
@@ -649,12 +710,17 @@ for c in cases:
         res = ["ok", spinner.run(0.5, function)]
     except BaseException as e:
         res = ["raised", type(e).__name__]
-    out.append({"res": res, "junk": len(spinner.get_junk()), "running": bool(reactor.running),
+    out.append({"res": res, "junk": len(spinner.get_junk()), "fired": fired, "running": bool(reactor.running),
                 "pending": len(reactor.getDelayedCalls()),
                 "stop_ok": (reactor.stop is stop_override) if c.get("ovr") else (reactor.stop == stop_before),
                 "sigs_ok": [signal.getsignal(s) for s in sigs] == before})
 print(json.dumps(out))
 '''
+
+
+# start-up hooks of the first ten real-reactor cases (shapes ret, raise, later_ok, later_err, never, twice)
+_REAL_HOOKS = [[], ["stop"], ["stop"], [], ["noop", "stop", "sched"], ["sched", "stop"], [], ["sched", "noop"], ["stop", "stop"],
+               ["stop"]]
 
 
 def _real_expect(c):
@@ -663,6 +729,8 @@ def _real_expect(c):
         res = ["ok", 5]
     elif k == "raise":
         res = ["raised", "ValueError"]
+    elif "stop" in (c.get("hooks") or []):                  # stopped while starting up: the main loop never runs
+        res = ["raised", "NoResultError"]
     elif c["stop"] or (c["kill"] and c["pre"][0] == 2):   # the reactor only takes SIGINT over from default_int_handler
         res = None            # raced with a 0-delay Deferred: either NoResultError or the Deferred's result
     elif k == "later_ok":
@@ -687,6 +755,9 @@ def extra_checks(tier, rng):
         kill = (not stop) and rng.random() < 0.15
         cases.append({"shape": sh, "extras": rng.choice([0, 0, 1, 2]), "stop": stop, "kill": kill,
                       "ovr": rng.random() < 0.4,
+                      "hooks": _REAL_HOOKS[k] if k < len(_REAL_HOOKS) else
+                      [rng.choice(["stop", "sched", "noop"]) for _ in range(rng.choice([1, 2, 3]))]
+                      if rng.random() < 0.3 else [],
                       # SIGINT at SIG_DFL only when no SIGINT is sent (it would end the process)
                       "pre": [rng.choice([2, 3, 1] if kill else [2, 3, 1, 0]), rng.choice([0, 1, 3]),
                               rng.choice([0, 1, 3])]})
@@ -718,8 +789,11 @@ def extra_checks(tier, rng):
                 res_ok = o["res"] == ["raised", "NoResultError"] or (alt is not None and o["res"] == alt)
             else:
                 res_ok = o["res"] == exp
-            leftovers = c["extras"]
+            hooks = c.get("hooks") or []
+            leftovers = c["extras"] + hooks.count("sched")
             ok = (res_ok and not o["running"] and o["pending"] == 0 and o["stop_ok"] and o["sigs_ok"]
-                  and o["junk"] >= leftovers)
+                  and o["junk"] >= leftovers
+                  # every start-up hook fired, in registration order, before the function - also after a stop
+                  and o.get("fired") == list(range(len(hooks))) + ["f"])
             out.append({"ok": bool(ok), "case": c, "observed": o, "expected_result": exp})
     return out
